@@ -1,7 +1,7 @@
 (** C13 - Search bounds are admissible and search enumerators are complete.
     Statements only; proofs in Proofs/ObjectivesProofs.v and Proofs/EnumProofs.v. *)
 From Prtpy Require Import Base.Prelude Base.Perms Model.Binner Model.Objectives Model.InExTree Model.KK
-     Proofs.ObjectivesProofs Proofs.EnumProofs.
+     Proofs.ObjectivesProofs Proofs.EnumProofs Model.Multifit Proofs.FloatDivProofs.
 From Coq Require Import Sorting.Sorted.
 
 (** The lower bound never exceeds the objective value of any completion f of the partial
@@ -64,3 +64,13 @@ Print Assumptions C13_all_combinations_nodup.
 Theorem C13_perms : forall n p, In p (perms n) <-> Permutation p (range n).
 Proof. exact perms_spec. Qed.
 Print Assumptions C13_perms.
+
+(** the model writes np.floor(a/i) and np.ceil(a/k) of objectives.py as exact integer division: justified for binary64
+    (rnd53 = correctly rounded division, Model/Multifit.v) whenever the dividend is below 2^53 *)
+Theorem C13_floor_fl_div : forall a i : Z, 0 <= a < 2 ^ 53 -> 1 <= i -> ffloor (rnd53 a i) = a / i.
+Proof. exact floor_fl_div. Qed.
+Print Assumptions C13_floor_fl_div.
+
+Theorem C13_ceil_fl_div : forall a i : Z, 0 <= a < 2 ^ 53 -> 1 <= i -> fceil (rnd53 a i) = cdiv a i.
+Proof. exact ceil_fl_div. Qed.
+Print Assumptions C13_ceil_fl_div.
